@@ -172,6 +172,43 @@ def blocking_run(rng, scenario):
     return res
 
 
+def blocking_stop_run():
+    """one thread blocked in send(multi-frame) waiting for a flow control that never comes, a second one queued behind it;
+    stop() must release both with BlockingSendFailure."""
+    import isotp
+    q = queue.Queue()
+
+    def rxf(timeout):
+        time.sleep(min(timeout, 0.02))
+        return None
+    a = isotp.Address(isotp.AddressingMode.Normal_11bits, txid=0x111, rxid=0x222)
+    A = isotp.TransportLayer(rxfn=rxf, txfn=q.put, address=a, params={'blocking_send': True, 'rx_flowcontrol_timeout': 20000}, read_timeout=0.02)
+    A.start()
+    out = {}
+
+    def worker(name, n):
+        try:
+            A.send(bytes(n), send_timeout=8.0)
+            out[name] = 'ok'
+        except isotp.BlockingSendTimeout:
+            out[name] = 'timeout'
+        except isotp.BlockingSendFailure:
+            out[name] = 'failure'
+        except Exception as e:
+            out[name] = 'other:' + type(e).__name__
+    t1 = threading.Thread(target=worker, args=('active', 30), daemon=True)
+    t1.start()
+    time.sleep(0.3)
+    t2 = threading.Thread(target=worker, args=('queued', 20), daemon=True)
+    t2.start()
+    time.sleep(0.2)
+    t0 = time.time()
+    A.stop()
+    t1.join(3.0)
+    t2.join(3.0)
+    return {'outcomes': dict(out), 'alive': [t1.is_alive(), t2.is_alive()], 'elapsed': time.time() - t0, 'transmitting': A.transmitting()}
+
+
 def oracle_blocking(sc, res):
     fails = []
     o = res['outcome']
@@ -218,6 +255,17 @@ def run_shard(campaign, shard, nshards, seed, tier):
                 {'peer': 'absent', 'n': 50, 'timeout': 0.1}, {'peer': 'absent', 'n': 50, 'timeout': 2.0}]
         reps = 1 if quick else 10
         k = 0
+        if shard == 0:
+            for rep in range(reps):
+                res = blocking_stop_run()
+                part.d['evaluations'] += 1
+                part.distinct(('stop_while_blocked', rep))
+                part.hist('blocking_outcome', 'stop_while_blocked/%s' % sorted(res['outcomes'].items()))
+                if res['alive'] != [False, False] or res['outcomes'] != {'active': 'failure', 'queued': 'failure'} or res['transmitting']:
+                    part.violation('oracle', campaign, 'C12:caller-left-blocked-after-stop',
+                                   'stop() with a caller blocked in send(): outcomes %s, still blocked %s, transmitting=%s' % (res['outcomes'], res['alive'], res['transmitting']),
+                                   {'scenario': 'stop_while_blocked', 'result': res})
+                part.sample({'scenario': 'stop_while_blocked', 'result': res})
         for rep in range(reps):
             for sc in scs:
                 k += 1
